@@ -88,7 +88,7 @@ def run(ctx):
         ('check_continuous_headers', '<HeaderView as HeaderUtils>::is_parent_of', None),
     ):
         B = ctx.body(fname)
-        loop_guard(ctx, 'C01.r3', B, g, 'true', gname)
+        ctx.loop_guard('C01.r3', B, g, 'true', gname)
 
     # ---- r4 rejection leaves state unchanged ----------------------------------------------
     trusted_sinks = {'Storage::update_last_state', 'Storage::update_last_n_headers', 'Peers::update_prove_state',
@@ -129,22 +129,3 @@ def meta_key_writers(P, consts):
         if any(k.endswith('>::put') or k in ('Batch::put', 'Batch::put_kv') for k in keys):
             out.add(top.name)
     return out
-
-
-def loop_guard(ctx, rule, B, gpred, accept, gname=None):
-    """Per-element guard inside a `for` loop: (a) success returns are only reachable in worlds where
-    the guard did not reject; (b) every loop iteration passes the guard: with the guard block
-    removed, the iterator `next` block cannot reach itself."""
-    P = ctx.prog
-    succ = ctx.success_sinks(B)
-    ctx.floor(rule, 'success returns of ' + B.name, len(succ), 1)
-    ctx.guard(rule, B, gpred, accept, succ, unconditional=False, gname=gname)
-    cfg = P.cfg(B)
-    gs = P.call_sites(B, gpred)
-    nexts = [bid for bid, k, t in P.call_keys(B) if k.endswith('Iterator>::next')]
-    if not nexts:
-        raise Inconclusive('%s: no Iterator::next call found in %s' % (rule, B.name))
-    for nb in nexts:
-        r = cfg.reachable_from(cfg.succ[nb], removed_nodes={g[0] for g in gs})
-        ctx.ob(rule, B.name, 'every loop iteration passes %s' % (gname or gpred), nb not in r,
-               at=B.blocks[nb].term.span)
